@@ -751,6 +751,16 @@ def flag_and_status_writers(ctx, base_tq, rule='flag-writers'):
             ini = [i for i in fn.inits if i['member'] == m.info]
             if wr or ini:
                 seen.append(name)
+            if wr and name == 'init':
+                # [session 4, fix F50] init() resets the status: the only value it may assign is NotComputed
+                vals = []
+                for a in wr:
+                    n = fn.nodes[a.node]
+                    ops = fn.call_args(n) if n['k'] == 'CXXOperatorCallExpr' else [fn.nodes[c] for c in n.get('c', [])]
+                    vals.append(sym(fn, ops[1], inline=False) if len(ops) == 2 else None)
+                if any(v != ('enum', 'NotComputed') for v in vals):
+                    bad.append('init assigns the status a value other than NotComputed')
+                continue
             if wr and name != 'compute':
                 bad.append('%s assigns the status' % name)
         ctx.check(not bad, rule, inst + ':status', comp.record,
@@ -780,7 +790,15 @@ def accessor_agreement(ctx, base_tq, rule='accessor-agreement'):
                 if t[1] == ('F', m.flag) and len(t) == 3 and t[2][0] == 'F':
                     nev_field = t[2][1]
         if nev_field is None:
-            raise AnalysisBroken('%s: init() does not size the flag array by a field' % comp.record)
+            # init() does not size the flag array (decided as a violation by init-restores-the-initial-accessor-state): take the size from num_converged()
+            for g in m.all_methods:
+                for n in g.walk():
+                    if n['k'] == 'CXXMemberCallExpr' and n.get('callee') in ('head', 'resize'):
+                        t = sym(g, n, inline=False)
+                        if len(t) == 3 and t[2][0] == 'F' and 'nev' in t[2][1]:
+                            nev_field = t[2][1]
+        if nev_field is None:
+            raise AnalysisBroken('%s: the size of the flag array is not a field' % comp.record)
         for acc in ('eigenvalues', 'eigenvectors'):
             fns = [f for f in ctx.F.by_record[comp.record].get(acc, []) if len(f.params) == (0 if acc == 'eigenvalues' else 1)]
             if not fns:
@@ -1222,6 +1240,45 @@ def initial_state(ctx, base_tq, rule='initial-state'):
                 problems.append('constructor sizes the flag array (accessors would not be empty before compute())')
             ctx.check(not problems, rule, '%s::ctor#%d' % (inst, k + 1), c.qname,
                       'status starts as NotComputed, flag array starts empty' if not problems else '; '.join(problems))
+
+
+def init_restores_initial_state(ctx, base_tq, rule='init-restores-the-initial-accessor-state'):
+    """"Before any compute(), info() is NotComputed and the accessors return empty objects", for all interleavings of init(),
+    compute() and accessor calls: after an init() that follows an earlier compute() the object is "before compute()" again.
+    The accessors select by the flag array and info() returns the status field, so on every normal path through init() the
+    flag array is set to all-false (setZero / setConstant(false) / fill(false) on the whole array) and the status is assigned
+    NotComputed.  (compute() overwrites both before it reads them, so neither reset matters to compute() -- which is why a
+    "dead store" clean-up of them passes every test.)"""
+    from . import paths
+    for comp in ctx.F.insts(base_tq + '::compute'):
+        m = BaseModel(ctx, comp)
+        inst = short(base_tq)
+        ini = m.methods.get('init')
+        if ini is None or not ini.cfg:
+            raise AnalysisBroken('%s: no init() with a body' % comp.record)
+        clears = set()
+        status = set()
+        for x in ini.walk():
+            if x['k'] == 'CXXMemberCallExpr' and x.get('callee') in ('setZero', 'setConstant', 'fill'):
+                r = ini.root_of(ini.call_object(x))
+                if r == ('field', m.flag) and sym(ini, ini.call_object(x), inline=False) == ('F', m.flag):
+                    a = ini.call_args(x)
+                    if x['callee'] == 'setZero' or (a and sym(ini, a[-1], inline=False) in (('lit', 'false'), ('lit', '0'))):
+                        clears.add(x['id'])
+            if x['k'] in ('BinaryOperator', 'CXXOperatorCallExpr') and x.get('op') == '=':
+                a = ini.call_args(x) if x['k'] == 'CXXOperatorCallExpr' else [ini.nodes[c] for c in x['c']]
+                if len(a) == 2 and ini.root_of(a[0]) == ('field', m.info) and sym(ini, a[1], inline=False) == ('enum', 'NotComputed'):
+                    status.add(x['id'])
+        problems = []
+        for what, ids, msg in (('flags', clears, 'the convergence flags are not reset to all-false: eigenvalues() / eigenvectors() after init() still select the pairs of the EARLIER compute() '
+                                                 '(their values were zeroed: nev zeros and zero columns instead of empty objects)'),
+                               ('status', status, 'the status is not reset to NotComputed: info() after init() still reports the outcome of the earlier compute() (e.g. Successful) while the accessors are empty')):
+            hit = paths.search(ini, [], stop=lambda n_, ids=ids: n_['id'] in ids, target=lambda n_: n_['k'] == 'ReturnStmt', include_entry=True,
+                               exit_is_target=lambda b: True, normal_only=True)
+            if hit is not None:
+                problems.append(msg)
+        ctx.check(not problems, rule, '%s::init' % inst, ini.qname,
+                  'every normal path through init() clears the flag array and sets the status to NotComputed' if not problems else '; '.join(problems))
 
 
 # ---------------------------------------------------------------------------------------------------
